@@ -93,6 +93,7 @@ type Session struct {
 	txs  map[int]*txh
 	curs map[int]*curh
 
+	DumpBudget  int  // > 0: maximum number of entries a dump may visit
 	AutoObserve bool // decode the file / read the statistics after every write transaction
 	obsN        int
 	HangFile    string        // where a watchdog writes its report
@@ -635,6 +636,13 @@ func (s *Session) dumpBucket(tx *bolt.Tx, b *bolt.Bucket) map[string]any {
 		seq = b.Sequence()
 	}
 	for k, v := c.First(); k != nil; k, v = c.Next() {
+		if s.DumpBudget > 0 {
+			// a corrupted (e.g. cyclic) tree must not be walked forever
+			s.DumpBudget--
+			if s.DumpBudget == 0 {
+				panic("dump budget exceeded: the tree does not end (cyclic or corrupted)")
+			}
+		}
 		var child *bolt.Bucket
 		kk := append([]byte(nil), k...)
 		if b == nil {
